@@ -1,1 +1,1 @@
-def wedgeScaleBeforeRotBackend : Bool := true
+def wedgeScaleBeforeRotBackend : Bool := false
